@@ -34,6 +34,9 @@ Code8 == <<0>> \o NumLSB(12 - 4, 4) \o Cat([i \in 1..12 |-> NumLSB(IF i = 3 \/ i
 Code8Green == <<0>> \o NumLSB(12 - 4, 4) \o Cat([i \in 1..12 |-> NumLSB(IF i = 3 \/ i = 12 THEN 1 ELSE 0, 3)]) \o <<0>> \o [s \in 1..256 |-> 1] \o [s \in 1..24 |-> 0]
 \* distance code: symbols 0..31 of length 5, 32..39 unused (code-length code: 0 and 5)
 Code5Dist == <<0>> \o NumLSB(8 - 4, 4) \o Cat([i \in 1..8 |-> NumLSB(IF i = 3 \/ i = 8 THEN 1 ELSE 0, 3)]) \o <<0>> \o [s \in 1..32 |-> 1] \o [s \in 1..8 |-> 0]
+\* a NORMAL code with a single used symbol `sym` (length 1) out of n: code-length code with the symbols 0 and 1
+CodeSingle(sym, n) == <<0>> \o NumLSB(0, 4) \o NumLSB(0, 3) \o NumLSB(0, 3) \o NumLSB(1, 3) \o NumLSB(1, 3) \o <<0>>
+                      \o [s \in 1..n |-> IF s = sym + 1 THEN 1 ELSE 0]
 SimpleOne(v) == <<1, 0, 1>> \o NumLSB(v, 8)                              \* simple code, one 8-bit symbol
 SimpleOne0 == <<1, 0, 0, 0>>
 
@@ -60,7 +63,9 @@ Tokens(c) ==
         ELSE LET r == Rnd(c.seed, 3 * k)  r2 == Rnd(c.seed, 3 * k + 1)  r3 == Rnd(c.seed, 3 * k + 2)
                  grp == IF c.meta THEN Tile(c, st.pos) ELSE 0
                  menu == DistMenu(c, st.pos)
-             IN IF c.copy /\ st.pos >= 1 /\ r % 8 < 3 /\ menu # <<>>
+             IN IF c.zg /\ grp = 1
+                THEN [pos |-> st.pos + 1, ntok |-> st.ntok + 1000, bits |-> st.bits]      \* zero-bit copy: length 1, distance 1
+                ELSE IF c.copy /\ st.pos >= 1 /\ r % 8 < 3 /\ menu # <<>>
                 THEN LET code == menu[(r2 % Len(menu)) + 1]
                          room == N - st.pos
                          ln == 1 + (r3 % (IF room < 14 THEN room ELSE 14))
@@ -84,7 +89,7 @@ MetaImage(c) ==   \* prefix bits 2 (4x4 tiles); entropy image pixel <<a, r, g, b
 ToBytes(bits) == LET nb == (Len(bits) + 7) \div 8 IN
   [k \in 1..nb |-> FoldLeft(LAMBDA acc, i : acc + (IF 8 * (k - 1) + i <= Len(bits) THEN bits[8 * (k - 1) + i] ELSE 0) * (2 ^ (i - 1)), 0, <<1,2,3,4,5,6,7,8>>)]
 \* the stream as labelled segments (name, bits): the field map for bit-level fault injection (C05) is read off it
-SegsG(w, h, cb, meta, precField, mw, nmeta, tokbits) ==
+SegsG(w, h, cb, meta, precField, mw, nmeta, tokbits, zg) ==
   LET n == 280 + (IF cb > 0 THEN 2 ^ cb ELSE 0)
   IN << <<"signature", NumLSB(47, 8)>>, <<"width-1", NumLSB(w - 1, 14)>>, <<"height-1", NumLSB(h - 1, 14)>>, <<"alpha-hint", <<1>> >>,
         <<"version", NumLSB(0, 3)>>, <<"transform-present", <<0>> >> >>
@@ -94,11 +99,13 @@ SegsG(w, h, cb, meta, precField, mw, nmeta, tokbits) ==
                  <<"meta-image-codes", Code8Green \o Code8 \o Code8 \o Code8 \o SimpleOne0>> >>
               \o [i \in 1..nmeta |-> <<"meta-pixel", CodeMSB((((i - 1) % mw) + ((i - 1) \div mw)) % 2, 8) \o CodeMSB(0, 8) \o CodeMSB(0, 8) \o CodeMSB(255, 8)>>]
               \o << <<"group-1-green-code", Code89(n)>>, <<"group-1-red-code", Code8>>, <<"group-1-blue-code", Code8>>, <<"group-1-alpha-code", Code8>>, <<"group-1-dist-code", Code5Dist>>,
-                    <<"group-2-green-code", Code89(n)>>, <<"group-2-red-code", Code8>>, <<"group-2-blue-code", Code8>>, <<"group-2-alpha-code", SimpleOne(255)>>, <<"group-2-dist-code", Code5Dist>> >>
+                    <<"group-2-green-code", IF zg THEN CodeSingle(256, n) ELSE Code89(n)>>, <<"group-2-red-code", IF zg THEN SimpleOne0 ELSE Code8>>,
+                    <<"group-2-blue-code", IF zg THEN SimpleOne0 ELSE Code8>>, <<"group-2-alpha-code", IF zg THEN SimpleOne0 ELSE SimpleOne(255)>>,
+                    <<"group-2-dist-code", IF zg THEN <<1, 0, 0, 1>> ELSE Code5Dist>> >>
          ELSE << <<"meta-present", <<0>> >>,
                  <<"group-1-green-code", Code89(n)>>, <<"group-1-red-code", Code8>>, <<"group-1-blue-code", Code8>>, <<"group-1-alpha-code", Code8>>, <<"group-1-dist-code", Code5Dist>> >>)
      \o << <<"tokens", tokbits>> >>
-Segs(c) == SegsG(c.w, H, c.cb, c.meta, 0, CeilDiv(c.w, 2), CeilDiv(c.w, 2) * CeilDiv(H, 2), Tokens(c).bits)
+Segs(c) == SegsG(c.w, H, c.cb, c.meta, 0, CeilDiv(c.w, 2), CeilDiv(c.w, 2) * CeilDiv(H, 2), Tokens(c).bits, c.zg)
 Stream(c) == ToBytes(Cat([i \in 1..Len(Segs(c)) |-> Segs(c)[i][2]]))
 \* field map: name, first bit, width (the long code descriptions and the token area are cut to their first 24 bits:
 \* that is where their headers are)
@@ -111,12 +118,12 @@ FieldMap(c) == FieldMapOf(Segs(c))
 \* streams (the reader rejects them); they are the starting points for bit-field faults whose cost must stay
 \* proportional to the input length plus the declared area.
 HostileBases == <<
-  [name |-> "256x256 cache 11 meta 128x128-tiles two groups no pixel data", sg |-> SegsG(256, 256, 11, TRUE, 5, 2, 4, <<>>)],
-  [name |-> "16383x16383 one group no pixel data", sg |-> SegsG(16383, 16383, 0, FALSE, 0, 1, 0, <<>>)],
-  [name |-> "4096x4096 meta 4x4-tiles meta image cut after 3 pixels", sg |-> SegsG(4096, 4096, 3, TRUE, 0, 1024, 3, <<>>)],
-  [name |-> "1000x1000 cache 1 meta 512x512-tiles two groups 8 tokens", sg |-> SegsG(1000, 1000, 1, TRUE, 7, 2, 4, Cat([i \in 1..8 |-> GreenBits(i * 20, 282) \o CodeMSB(i, 8) \o CodeMSB(2 * i, 8) \o CodeMSB(255, 8)]))] >>
+  [name |-> "256x256 cache 11 meta 128x128-tiles two groups no pixel data", sg |-> SegsG(256, 256, 11, TRUE, 5, 2, 4, <<>>, FALSE)],
+  [name |-> "16383x16383 one group no pixel data", sg |-> SegsG(16383, 16383, 0, FALSE, 0, 1, 0, <<>>, FALSE)],
+  [name |-> "4096x4096 meta 4x4-tiles meta image cut after 3 pixels", sg |-> SegsG(4096, 4096, 3, TRUE, 0, 1024, 3, <<>>, FALSE)],
+  [name |-> "1000x1000 cache 1 meta 512x512-tiles two groups 8 tokens", sg |-> SegsG(1000, 1000, 1, TRUE, 7, 2, 4, Cat([i \in 1..8 |-> GreenBits(i * 20, 282) \o CodeMSB(i, 8) \o CodeMSB(2 * i, 8) \o CodeMSB(255, 8)]), FALSE)] >>
 
-Configs == [seed : SEEDS, w : WIDTHS, cb : {0, 1, 3}, meta : BOOLEAN, copy : BOOLEAN]
+Configs == {c \in [seed : SEEDS, w : WIDTHS, cb : {0, 1, 3}, meta : BOOLEAN, copy : BOOLEAN, zg : BOOLEAN] : c.zg => c.meta}
 Init == cfg \in Configs /\ phase = "pick" /\ vbytes = <<>> /\ vpix = <<>>
 Write == /\ phase = "pick" /\ vbytes' = Stream(cfg) /\ phase' = "written" /\ UNCHANGED <<cfg, vpix>>
 Read == /\ phase = "written"
@@ -129,9 +136,9 @@ Spec == Init /\ [][Next]_vars
 ReaderAccepts == phase \in {"pick", "written", "decoded"}
 \* group 2 really is exercised: in meta mode some pixel of a group-2 tile gets alpha 255 from the zero-bit code
 Emit == phase = "decoded" =>
-          PrintT(<<"CASE", ToJson([ts |-> <<cfg.seed, cfg.cb, IF cfg.meta THEN 1 ELSE 0, IF cfg.copy THEN 1 ELSE 0>>, w |-> cfg.w, h |-> H, ntok |-> Tokens(cfg).ntok, fields |-> FieldMap(cfg), bytes |-> vbytes,
+          PrintT(<<"CASE", ToJson([ts |-> <<cfg.seed, cfg.cb, IF cfg.meta THEN 1 ELSE 0, IF cfg.copy THEN 1 ELSE 0, IF cfg.zg THEN 1 ELSE 0>>, w |-> cfg.w, h |-> H, ntok |-> Tokens(cfg).ntok, fields |-> FieldMap(cfg), bytes |-> vbytes,
                                    pix |-> FoldLeft(LAMBDA acc, p : acc \o p, <<>>, vpix)])>>)
-EmitHostile == (phase = "pick" /\ cfg = CHOOSE c \in Configs : \A c2 \in Configs : c.seed <= c2.seed /\ c.w <= c2.w /\ c.cb <= c2.cb /\ (c.meta => c2.meta) /\ (c.copy => c2.copy)) =>
+EmitHostile == (phase = "pick" /\ cfg = CHOOSE c \in Configs : \A c2 \in Configs : c.seed <= c2.seed /\ c.w <= c2.w /\ c.cb <= c2.cb /\ (c.meta => c2.meta) /\ (c.copy => c2.copy) /\ (c.zg => c2.zg)) =>
   \A k \in 1..Len(HostileBases) :
      PrintT(<<"HOSTILE", ToJson([name |-> HostileBases[k].name, fields |-> FieldMapOf(HostileBases[k].sg),
                                  bytes |-> ToBytes(Cat([i \in 1..Len(HostileBases[k].sg) |-> HostileBases[k].sg[i][2]]))])>>)
